@@ -56,7 +56,7 @@ def main():
         if not confirmed:
             print(out0[-800:] if rc0 else "", outb[-800:] if rcb else "", out1[-400:] if rc1 == 0 else "")
         # copy current contract files (uncommitted edits included)
-        for f in ["schema/verif_contracts.go", "schema/verif_instances.go", "atp/verif_contracts.go", "cmd/arcaflow-codegen/verif_contracts.go"]:
+        for f in ["schema/verif_contracts.go", "schema/verif_instances.go", "schema/verif_harness.go", "atp/verif_contracts.go", "atp/verif_harness.go", "cmd/arcaflow-codegen/verif_contracts.go"]:
             if os.path.exists("/repo/" + f):
                 shutil.copy("/repo/" + f, os.path.join(wt, f))
         results = {}
